@@ -23,11 +23,12 @@ Ch == 1..2
 VARIABLES obj,     \* [Objs -> [alive, lst: [Ch -> Seq(cb)], flt: Seq(filter), pend: Seq(channel)]]
           exp,     \* what the running dispatch / processing call still has to invoke: Seq of <<"f"|"l", id, object, channel>>
           running, \* 0, or the object whose dispatch / process is in progress
-          ncb, nflt, l
-vars == <<obj, exp, running, ncb, nflt, l>>
+          ncb, nflt, l,
+          hv       \* callback id -> the object on which the handle kept from its addition still has a promised meaning (0: none), as in ObjGen
+vars == <<obj, exp, running, ncb, nflt, l, hv>>
 
 Dead == [alive |-> FALSE, lst |-> [c \in Ch |-> <<>>], flt |-> <<>>, pend |-> <<>>]
-Init == /\ obj = [o \in Objs |-> IF o = 1 THEN [Dead EXCEPT !.alive = TRUE] ELSE Dead] /\ exp = <<>> /\ running = 0 /\ ncb = 0 /\ nflt = 0 /\ l = 1
+Init == /\ obj = [o \in Objs |-> IF o = 1 THEN [Dead EXCEPT !.alive = TRUE] ELSE Dead] /\ exp = <<>> /\ running = 0 /\ ncb = 0 /\ nflt = 0 /\ l = 1 /\ hv = <<>>
 E == TraceLog[l]
 Is(e) == l <= Len(TraceLog) /\ E.e = e /\ l' = l + 1
 Alive(o) == o \in Objs /\ obj[o].alive
@@ -93,10 +94,29 @@ EvDestroy == /\ Is("de2") /\ Idle /\ Alive(E.o) /\ obj' = [obj EXCEPT ![E.o] = D
 EvReset == /\ Is("rs") /\ Idle /\ \A o \in Objs : ~obj[o].alive /\ E.lv = 0 /\ E.pv = 0
            /\ obj' = [o \in Objs |-> IF o = 1 THEN [Dead EXCEPT !.alive = TRUE] ELSE Dead] /\ exp' = <<>> /\ running' = 0 /\ ncb' = 0 /\ nflt' = 0
 
-Next == \/ EvAppend \/ EvRemoveFirst \/ EvAppendFilter \/ EvDispatchBegin \/ EvFilter \/ EvEnter \/ EvDispatchEnd
+\* removal through the handle kept from the addition of callback E.a to object E.o: the handle still means that listener of that object unless the
+\* object was the destination of an assignment from another object, moved from / to, swapped with another object or destroyed since (C10: self
+\* assignment and self swap change nothing; copies are independent): true exactly when the listener is still there, and it is gone afterwards
+WithoutId(q, x) == SelectSeq(q, LAMBDA y : y # x)
+EvRemoveStored == /\ Is("rh") /\ Idle /\ Alive(E.o) /\ E.a \in 1..Len(hv) /\ hv[E.a] = E.o
+                  /\ E.r = (IF \E c \in Ch : \E i \in 1..Len(obj[E.o].lst[c]) : obj[E.o].lst[c][i] = E.a THEN 1 ELSE 0)
+                  /\ obj' = [obj EXCEPT ![E.o].lst = [c \in Ch |-> WithoutId(obj[E.o].lst[c], E.a)]]
+                  /\ UNCHANGED <<exp, running, ncb, nflt>> /\ Ledger
+Retire(S) == [i \in 1..Len(hv) |-> IF hv[i] \in S THEN 0 ELSE hv[i]]
+HvStep == hv' = CASE E.e = "al" -> Append(hv, E.o)
+                  [] E.e = "ca" /\ E.o # E.a -> Retire({E.a})
+                  [] E.e = "xa" -> Retire({E.a})
+                  [] E.e = "mc" -> Retire({E.o})
+                  [] E.e = "ma" -> Retire({E.o, E.a})
+                  [] E.e = "sw" /\ E.o # E.a -> Retire({E.o, E.a})
+                  [] E.e = "de2" -> Retire({E.o})
+                  [] E.e = "rs" -> <<>>
+                  [] OTHER -> hv
+Next0 == \/ EvAppend \/ EvRemoveFirst \/ EvAppendFilter \/ EvDispatchBegin \/ EvFilter \/ EvEnter \/ EvDispatchEnd
         \/ EvEnqueue \/ EvProcessBegin \/ EvProcessEnd \/ EvEmptyQ \/ EvWaitFor
         \/ EvFaulted \/ EvAssignFaulted
-        \/ EvCopyConstruct \/ EvCopyAssign \/ EvMoveConstruct \/ EvMoveAssign \/ EvSwap \/ EvDestroy \/ EvReset
+        \/ EvCopyConstruct \/ EvCopyAssign \/ EvMoveConstruct \/ EvMoveAssign \/ EvSwap \/ EvDestroy \/ EvReset \/ EvRemoveStored
+Next == Next0 /\ HvStep
 Report == IF TLCGet("stats").diameter - 1 = Len(TraceLog) THEN TRUE
           ELSE PrintT(<<"REJECTED", TLCGet("stats").diameter, Len(TraceLog)>>) /\ FALSE
 =============================================================================
